@@ -309,7 +309,7 @@ Proof.
   assert (exists w, port_width d x p = Ok w /\ a_width a = w) as [w [Hpw' Haw]].
   { unfold key_width in Hw. unfold q in Hw. cbn [fst snd] in Hw. rewrite (pr_find x Hx) in Hw. cbn [ofopt bind] in Hw. eauto. }
   exists id, a, nm, g, w. repeat (split; [assumption|]). unfold added_conns. apply in_flat_map. exists (id, a, nm). split; [exact Ht|].
-  cbn [fst snd]. rewrite Hk. unfold q. cbn [fst snd]. rewrite String.eqb_refl, Hs, Ha. left. reflexivity.
+  unfold added_one. cbn [fst snd]. rewrite Hk. unfold q. cbn [fst snd]. rewrite String.eqb_refl, Hs, Ha. left. reflexivity.
 Qed.
 
 Lemma refs_to_pos_inv i p : 0 < refs_to m i p -> exists x c, In x (m_insts m) /\ In c (i_conns x) /\ as_ref m (snd c) = Some (i, p).
@@ -421,5 +421,137 @@ Proof.
   - (* untouched *)
     subst e. rewrite <- as_nc_is_nc, Hn in Hnc. destruct Hnc as [_ [cw [Hcw Hcase]]]. exists cw. split; [exact Hw1|].
     split; [eapply Forall_impl; [intros lw; apply leaf_ok_m1|]; apply (pr_leaves_sig x c Hx Hc Hr Hn)|]. auto.
+Qed.
+
+(* ---- the connections the pass adds ---- *)
+Lemma pr_added_inv x p e : In x (m_insts m) -> In (p, e) (added_conns table x) ->
+  exists id a nm g w, In (id, a, nm) table /\ a_kind a = AGroup g (i_name x, p) /\ e = XSig id (a_width a) /\
+    single x = true /\ assoc p (i_conns x) = None /\ port_width d x p = Ok w /\ a_width a = w /\
+    In g keys /\ gid m keys g = Some g /\ conn key (nxt m) g (i_name x, p) /\ In (i_name x, p) keys.
+Proof.
+  intros Hx Hin. unfold added_conns in Hin. apply in_flat_map in Hin. destruct Hin as [[[id a] nm] [Ht Hin]]. unfold added_one in Hin. cbn [fst snd] in Hin.
+  destruct (a_kind a) as [g o|] eqn:Ek; [|destruct Hin].
+  destruct (String.eqb (fst o) (i_name x)) eqn:E1; cbn [andb] in Hin; [|destruct Hin].
+  destruct (single x) eqn:Es; cbn [andb] in Hin; [|destruct Hin].
+  destruct (assoc (snd o) (i_conns x)) eqn:Ea; [destruct Hin|]. destruct Hin as [E|[]]. inversion E; subst p e.
+  apply String.eqb_eq in E1. destruct o as [oi op]. cbn [fst snd] in *. subst oi.
+  destruct (tbl_In _ _ _ Ht) as [Hal _]. destruct plan_facts as [Hgood _]. rewrite Forall_forall in Hgood.
+  pose proof (Hgood a Hal) as G. unfold alloc_good in G. rewrite Ek in G. destruct G as [Hgk [Hgg [namer [Hgr Hkw]]]].
+  destruct (group_res_fresh g (i_name x, op) namer Hgk Hgg Hgr) as [Hok [Co [Hnk Cn]]].
+  pose proof (conn_width d km m keys Hwm Hfrag Hkeys (i_name x, op) namer Hok Hnk (c_trans _ _ _ _ _ (c_sym _ _ _ _ Co) Cn)) as Hcw.
+  rewrite Hkw in Hcw. unfold key_width in Hcw. cbn [fst snd] in Hcw. rewrite (pr_find x Hx) in Hcw. cbn [ofopt bind] in Hcw.
+  exists id, a, nm, g, (a_width a). auto 12.
+Qed.
+
+Lemma NoDup_flat_map_label {A B C} (G : A -> list B) (K : A -> list C) (kap : B -> C) l :
+  (forall e y, In e l -> In y (G e) -> G e = [y] /\ K e = [kap y]) -> NoDup (flat_map K l) -> NoDup (flat_map G l).
+Proof.
+  induction l as [|e l IH]; intros H Hnd; cbn [flat_map] in *; [constructor|].
+  assert (NoDup (flat_map G l)) as IHl by (apply IH; [intros e' y He' Hy; apply H; [right; exact He'|exact Hy]|apply (NoDup_app_r _ _ Hnd)]).
+  destruct (G e) as [|y t] eqn:Eg; [exact IHl|].
+  destruct (H e y (or_introl eq_refl)) as [Ege Eke]; [rewrite Eg; left; reflexivity|]. rewrite Eg in Ege. inversion Ege; subst t. cbn [app].
+  constructor; [|exact IHl]. intros Hin. apply in_flat_map in Hin. destruct Hin as [e' [He' Hy]].
+  destruct (H e' y (or_intror He') Hy) as [_ Eke']. rewrite Eke in Hnd. cbn [app] in Hnd. inversion Hnd as [|? ? Hn _]; subst.
+  apply Hn. apply in_flat_map. exists e'. split; [exact He'|]. rewrite Eke'. left. reflexivity.
+Qed.
+
+Lemma tbl_groups : flat_map (fun e : N * alloc * name => match a_kind (snd (fst e)) with AGroup g _ => [g] | ANc _ _ => [] end) table = alloc_groups allocs.
+Proof.
+  assert (map (fun e : N * alloc * name => snd (fst e)) table = allocs) as Hm.
+  { replace (fun e : N * alloc * name => snd (fst e)) with (fun e : N * alloc * name => fst ((fun e => (snd (fst e), snd e)) e)) by reflexivity.
+    rewrite <- map_map. unfold table. rewrite number_allocs_map. apply map_fst_combine'. symmetry. exact pr_names_len. }
+  unfold alloc_groups. rewrite <- Hm. rewrite flat_map_concat_map, flat_map_concat_map, map_map. reflexivity.
+Qed.
+
+Lemma map_flat_map {A B C} (f : B -> C) (g : A -> list B) l : map f (flat_map g l) = flat_map (fun x => map f (g x)) l.
+Proof. induction l as [|x l IH]; cbn [flat_map]; [reflexivity|]. rewrite map_app, IH. reflexivity. Qed.
+
+Lemma pr_added_NoDup x : In x (m_insts m) -> NoDup (map fst (added_conns table x)).
+Proof.
+  intros Hx. unfold added_conns. rewrite map_flat_map.
+  apply (NoDup_flat_map_label _ (fun e : N * alloc * name => match a_kind (snd (fst e)) with AGroup g _ => [g] | ANc _ _ => [] end)
+           (fun p => match gid m keys (i_name x, p) with Some g => g | None => (i_name x, p) end)).
+  - intros [[id a] nm] y He Hy. unfold added_one in *. cbn [fst snd] in *. destruct (a_kind a) as [g o|] eqn:Ek; [|destruct Hy].
+    destruct (String.eqb (fst o) (i_name x) && single x && match assoc (snd o) (i_conns x) with None => true | Some _ => false end) eqn:Ec; [|destruct Hy].
+    cbn [map fst] in *. destruct Hy as [<-|[]]. split; [reflexivity|].
+    apply andb_prop in Ec. destruct Ec as [Ec _]. apply andb_prop in Ec. destruct Ec as [E1 _]. apply String.eqb_eq in E1.
+    destruct (tbl_In _ _ _ He) as [Hal _]. destruct plan_facts as [Hgood _]. rewrite Forall_forall in Hgood.
+    pose proof (Hgood a Hal) as G. unfold alloc_good in G. rewrite Ek in G. destruct G as [Hgk [Hgg [namer [Hgr _]]]].
+    destruct (group_res_fresh g o namer Hgk Hgg Hgr) as [Hok [Co _]].
+    assert ((i_name x, snd o) = o) as -> by (destruct o; cbn [fst snd] in *; congruence).
+    rewrite <- (gid_conn d km m keys Hwm Hfrag Hkeys g o Hgk Hok Co), Hgg. reflexivity.
+  - rewrite tbl_groups. apply plan_facts.
+Qed.
+
+Lemma pr_inst_ok x x1 : In x (m_insts m) -> rewrite_inst m keys table x = Ok x1 -> inst_ok d km m1 x1.
+Proof.
+  intros Hx Hr. destruct (rewrite_inst_inv x x1 Hr) as [Hn [Hnn [Ho [cs [Hcs Fc]]]]].
+  destruct (wf_module_inv _ _ _ Hwm) as [_ [_ [_ Hi]]]. destruct (wf_inst_inv _ _ _ _ (Hi x Hx)) as [Hlt [ports [Hp [Hnd [Hwc Hall]]]]].
+  split; [rewrite Ho; exact Hlt|]. exists ports. split; [rewrite Ho; exact Hp|].
+  assert (map fst cs = map fst (i_conns x)) as Hfst.
+  { symmetry. eapply Forall2_map_eq; [exact Fc|]. intros c c1 Hc. unfold rewrite_conn in Hc.
+    destruct (as_ref m (snd c)); [destruct (res m keys table k); cbn [bind] in Hc; inversion Hc; reflexivity|].
+    destruct (as_nc m (snd c)); [destruct (find_nc table (i_name x) (fst c)); cbn [ofopt bind] in Hc; inversion Hc; reflexivity|inversion Hc; reflexivity]. }
+  split; [|split].
+  - rewrite Hcs, map_app, Hfst. apply NoDup_app_intro; [exact Hnd|apply pr_added_NoDup; exact Hx|].
+    intros p H1 H2. apply in_map_iff in H2. destruct H2 as [[p' e] [<- Hin]]. cbn [fst] in H1.
+    destruct (pr_added_inv x p' e Hx Hin) as [id [a [nm [g [w [_ [_ [_ [_ [Hnone _]]]]]]]]]]. apply (assoc_None_notin _ _ Hnone). exact H1.
+  - rewrite Hcs. apply Forall_app. split.
+    + apply Forall_forall. intros c1 Hc1. destruct (Forall2_In_r _ _ _ c1 Fc Hc1) as [c [Hc Hrc]].
+      destruct (pr_rewrite_conn x c Hx Hc) as [e [Hre Hci]]. rewrite Hrc in Hre. inversion Hre; subst c1.
+      destruct (wf_conn_inv _ _ _ _ _ (Hwc c Hc)) as [w [Hw _]].
+      destruct (pr_conn_ok x c e ports w Hx Hc Hp Hw Hci) as [cw [H1 [H2 [H3 H4]]]].
+      exists w, cw. cbn [fst snd]. rewrite Hnn. auto.
+    + apply Forall_forall. intros [p e] Hin. destruct (pr_added_inv x p e Hx Hin) as [id [a [nm [g [w [Ht [Hk [-> [Hs [Hnone [Hpw' [Haw _]]]]]]]]]]]].
+      assert (assoc p ports = Some w) as Hw by (unfold port_width in Hpw'; rewrite Hp in Hpw'; cbn [bind] in Hpw'; apply ofopt_ok in Hpw'; exact Hpw').
+      pose proof (Hpw x ports (p, w) Hx Hp (assoc_In _ _ _ Hw)) as Hw1. cbn [snd] in Hw1.
+      exists w, w. cbn [fst snd]. split; [exact Hw|]. split; [exact Hw1|]. rewrite Haw. split; [constructor; [rewrite <- Haw; eapply leaf_ok_new; exact Ht|constructor]|].
+      split; [cbn [xwidth]; destruct (w <? 1) eqn:E; [lia|reflexivity]|left; reflexivity].
+  - intros pw Hpwin. rewrite Hcs, assoc_app. destruct (assoc (fst pw) (i_conns x)) as [cx|] eqn:Ea.
+    + destruct (assoc_Forall2 _ _ _ (fst pw) cx Fc) as [v' [Hv' _]]; [|exact Ea|rewrite Hv'; discriminate].
+      intros c c1 Hc. apply (f_equal (fun l => l)) in Hfst. unfold rewrite_conn in Hc.
+      destruct (as_ref m (snd c)); [destruct (res m keys table k); cbn [bind] in Hc; inversion Hc; reflexivity|].
+      destruct (as_nc m (snd c)); [destruct (find_nc table (i_name x) (fst c)); cbn [ofopt bind] in Hc; inversion Hc; reflexivity|inversion Hc; reflexivity].
+    + assert (assoc (fst pw) cs = None) as ->.
+      { apply assoc_notin_None. rewrite Hfst. apply assoc_None_notin. exact Ea. }
+      (* the port is referred to: it owns its group's implicit signal *)
+      pose proof (Hall pw Hpwin Ea) as Hpos. destruct (refs_to_pos_inv _ _ Hpos) as [x' [c' [Hx' [Hc' Hr']]]].
+      assert (In (i_name x, fst pw) (mentioned m)) as Hq by (apply pr_mentioned; eauto).
+      pose proof (pr_ref_target x' c' _ Hx' Hc' Hr') as Hqk. apply (keys_In d km m keys Hwm Hkeys) in Hqk. destruct Hqk as [x2 [w2 [Hf2 [Hs2 _]]]].
+      cbn [fst] in Hf2. rewrite (pr_find x Hx) in Hf2. inversion Hf2; subst x2.
+      destruct (pr_added x (fst pw) Hx Hs2 Ea Hq) as [id [a [nm [g [w [_ [_ [_ [_ [_ Hin]]]]]]]]]].
+      intros E. apply assoc_None_notin in E. apply E. apply (in_map fst) in Hin. exact Hin.
+Qed.
+
+Lemma pr_insts1_names : map i_name insts1 = map i_name (m_insts m).
+Proof. symmetry. eapply Forall2_map_eq; [exact Hins|]. intros x x1 H. apply rewrite_inst_inv in H. symmetry. tauto. Qed.
+
+Theorem pr_module_ok : module_ok d km m1.
+Proof.
+  destruct (wf_module_inv _ _ _ Hwm) as [Hn [Hnd [Hw Hi]]]. split; [exact Hn|]. split; [|split].
+  - unfold mod_names. cbn [m1 m_ports m_sigs m_insts]. rewrite pr_insts1_names. unfold sigs1. rewrite map_app, map_map. cbn [fst].
+    set (P := map fst (m_ports m)) in *. set (S := map fst (m_sigs m)) in *. set (I := map i_name (m_insts m)) in *.
+    set (T := map (fun e : N * alloc * name => snd e) table).
+    unfold mod_names in Hnd. fold P S I in Hnd.
+    assert (forall nm, In nm T -> ~ In nm (P ++ S ++ I)) as Hfresh.
+    { intros nm Hin. apply in_map_iff in Hin. destruct Hin as [[[id a] nm'] [<- Hin]]. apply (tbl_name_fresh _ _ _ Hin). }
+    apply NoDup_app_intro; [apply (NoDup_app_l _ _ Hnd)| |].
+    + apply NoDup_app_intro.
+      * apply NoDup_app_intro; [apply (NoDup_app_l _ _ (NoDup_app_r _ _ Hnd))|exact tbl_names_NoDup|].
+        intros x H1 H2. apply (Hfresh x H2). apply in_or_app. right. apply in_or_app. left. exact H1.
+      * apply (NoDup_app_r _ _ (NoDup_app_r _ _ Hnd)).
+      * intros x H1 H2. apply in_app_or in H1. destruct H1 as [H1|H1].
+        -- apply (NoDup_app_disj _ _ x (NoDup_app_r _ _ Hnd) H1 H2).
+        -- apply (Hfresh x H1). apply in_or_app. right. apply in_or_app. right. exact H2.
+    + intros x H1 H2. apply in_app_or in H2. destruct H2 as [H2|H2].
+      * apply in_app_or in H2. destruct H2 as [H2|H2].
+        -- apply (NoDup_app_disj _ _ x Hnd H1). apply in_or_app. left. exact H2.
+        -- apply (Hfresh x H2). apply in_or_app. left. exact H1.
+      * apply (NoDup_app_disj _ _ x Hnd H1). apply in_or_app. right. exact H2.
+  - cbn [m1 m_ports m_sigs]. unfold sigs1. rewrite app_assoc, forallb_app. rewrite Hw. cbn [andb]. apply forallb_forall.
+    intros [nm w] Hin. apply in_map_iff in Hin. destruct Hin as [[[id a] nm'] [E Hin]]. inversion E; subst. cbn [snd].
+    destruct (tbl_In _ _ _ Hin) as [Ha _]. pose proof (alloc_width_pos a Ha). lia.
+  - apply Forall_forall. intros x1 Hx1. cbn [m1 m_insts] in Hx1. destruct (Forall2_In_r _ _ _ x1 Hins Hx1) as [x [Hx Hr]].
+    eapply pr_inst_ok; eassumption.
 Qed.
 End PRModule.
